@@ -285,6 +285,9 @@ impl<'a> LoweringContext<'a> {
         // block ids are per function: a loop of the enclosing function is not a
         // break/continue target for the nested one
         let saved_loops = std::mem::take(&mut self.loop_stack);
+        // the nested function clears type_params_map when it is done; the type
+        // parameters of the enclosing generic function must survive that
+        let saved_type_params = self.type_params_map.clone();
         let saved_next_local = self.next_local_id;
         let saved_next_block = self.next_block_id;
         self.next_local_id = 0;
@@ -307,6 +310,7 @@ impl<'a> LoweringContext<'a> {
         self.block_aliases = saved_aliases;
         self.pending_block_id = saved_pending;
         self.loop_stack = saved_loops;
+        self.type_params_map = saved_type_params;
         self.next_local_id = saved_next_local;
         self.next_block_id = saved_next_block;
     }
